@@ -354,6 +354,9 @@ class Lib:
         if len(node.generators) != 1:
             raise self.E.Unsupported("nested comprehension generators")
         gen = node.generators[0]
+        canon = self.canonical_comprehension(ex, st, node, gen)
+        if canon is not None:
+            return canon
         n, getter = self.iteration(ex, st, gen.iter)
         j = ex.bvar("j")
         saved = dict(st.env)
@@ -389,6 +392,64 @@ class Lib:
         if cond is None:
             return self.new_seq_q(ex, st, val.t, n, j, val.z, "list", "comp")
         return filtered_seq(ex, st, val.t, n, j, cond, val.z)
+
+    def canonical_comprehension(self, ex, st, node, gen):
+        """[f(x, free...) for x in xs] with xs a plain sequence expression and no filter: the result is a FUNCTION
+        of xs and of the free variables of f - the same source text applied to the same values denotes the same
+        term (needed when code and specification build the same list independently).  -> SV or None"""
+        if gen.ifs or not isinstance(gen.target, ast.Name) or not isinstance(gen.iter, (ast.Name, ast.Subscript,
+                                                                                        ast.Attribute)):
+            return None
+        try:
+            xs = ex.ev(st, gen.iter)
+        except Exception:
+            return None
+        if not isinstance(xs.t, TSeq):
+            return None
+        tgt = gen.target.id
+        free = []
+        for n in ast.walk(node.elt):
+            name = None
+            if isinstance(n, ast.Name) and isinstance(n.ctx, ast.Load):
+                name = n.id
+            elif isinstance(n, ast.Attribute):
+                try:
+                    name = ast.unparse(n)
+                except Exception:
+                    name = None
+            if name and name != tgt and name in st.env and st.env[name].z is not None and name not in free:
+                free.append(name)
+        free.sort()
+        j = ex.bvar("j")
+        saved = dict(st.env)
+        n_len = ex.seq_len(xs)
+        outer_expect = getattr(st, "_expect_elem", None)
+        st._expect_elem = outer_expect.elem if isinstance(outer_expect, TSeq) else None
+        ex.push_binder(st, [j], z3.And(0 <= j, j < n_len))
+        try:
+            st.env[tgt] = ex.seq_get(xs, j)
+            val = ex.ev(st, node.elt)
+        except Exception:
+            return None
+        finally:
+            ex.pop_binder(st)
+            st.env = saved
+            st._expect_elem = outer_expect
+        if isinstance(val.t, TPy):
+            return None
+        import hashlib as _h
+        key = _h.md5((ast.unparse(node) + "|" + xs.t.key() + "|" + val.t.key()).encode()).hexdigest()[:10]
+        args = [xs] + [st.env[f] for f in free]
+        rt = TSeq(val.t, "list")
+        fn = ex.uf("comp_" + key, *([a.t.sort() for a in args] + [rt.sort()]))
+        r = SV(rt, fn(*[a.z for a in args]))
+        skey = ("canon-comp", r.z.get_id())
+        if skey not in st.seen:
+            st.seen.add(skey)
+            ex.assume(st, rt.len(r.z) == n_len)
+            ex.assume(st, z3.ForAll([j], z3.Implies(z3.And(0 <= j, j < n_len), rt.arr(r.z)[j] == val.z),
+                                    patterns=[rt.arr(r.z)[j]]))
+        return r
 
     # ---------------------------------------------------------------- calls
     def call(self, ex, st, node):
